@@ -10,7 +10,7 @@ __CPROVER_ensures(__tmcg_thrown == 0 ==> self->l_e == ell_e && self->l_e_nizk ==
 //@ function GrothVSSHE__ctor_stream
 //@ contract
 __CPROVER_requires(__CPROVER_is_fresh(self, sizeof(*self)) && IOS_IN_OK(in) && __tmcg_thrown == 0)
-__CPROVER_assigns(__CPROVER_object_whole(self), IOS_IN_ASSIGNS(in), __tmcg_thrown, ghost_pre_tab, ghost_pre_t)
+__CPROVER_assigns(__CPROVER_object_whole(self), IOS_IN_ASSIGNS(in), __tmcg_thrown, ghost_pre_tab, ghost_pre_t, g_pub_calls, g_pub_obj, g_pub_nput)
 __CPROVER_ensures(__tmcg_thrown == 0 || __tmcg_thrown == TMCG_EXC_runtime_error || __tmcg_thrown == TMCG_EXC_invalid_argument)
 /* C03 (premise of completeness for every admissible challenge length): an instance built from a published group
  * uses the caller's challenge length in BOTH layers -- the shuffle argument itself and its inner
@@ -18,6 +18,9 @@ __CPROVER_ensures(__tmcg_thrown == 0 || __tmcg_thrown == TMCG_EXC_runtime_error 
 __CPROVER_ensures(__tmcg_thrown == 0 ==> self->l_e == ell_e && self->l_e_nizk == ell_e * 2UL
                   && self->skc != 0 && self->skc->l_e == ell_e && self->skc->l_e_nizk == ell_e * 2UL
                   && self->F_size == fieldsize && self->G_size == subgroupsize && self->com != 0)
+/* C11 (import half): p, q, g, h are the first four integers of the stream, in this order; the commitment scheme is
+ * built from what follows (its own constructor: group C11_params) */
+__CPROVER_ensures(__tmcg_thrown == 0 ==> V(self->p) == in->tok[ENTRY_TOK(0)] && V(self->q) == in->tok[ENTRY_TOK(1)] && V(self->g) == in->tok[ENTRY_TOK(2)] && V(self->h) == in->tok[ENTRY_TOK(3)])
 //@ end
 
 //@ function GrothSKC__CheckGroup
@@ -35,4 +38,14 @@ __CPROVER_assigns()
 /* C06 (delegating wrapper): |q| covers both challenge lengths (Theorem 5 of [Gr05]) and the commitment scheme of the
  * inner argument passes its group check -- and nothing else: the object's own p, q, g, h are NOT examined here */
 __CPROVER_ensures(__CPROVER_return_value == (UF(bits)(V(self->q)) >= self->l_e && UF(bits)(V(self->q)) >= self->l_e_nizk && PCG(self->skc->com)))
+//@ end
+
+//@ function GrothVSSHE__PublishGroup
+//@ contract
+__CPROVER_requires(__CPROVER_is_fresh(self, sizeof(*self)) && __CPROVER_is_fresh(self->com, sizeof(PedersenCommitmentScheme)) && __CPROVER_is_fresh(out, sizeof(ios_t)) && out->nput == 0 && g_pub_calls == 0)
+__CPROVER_assigns(IOS_OUT_ASSIGNS(out), g_pub_calls, g_pub_obj, g_pub_nput)
+/* C11 (export half): p, q, g, h in the order the stream constructor reads them, then -- after exactly these four
+ * integers -- the group of the commitment scheme, written by that object itself (C11_params) */
+__CPROVER_ensures(out->nput >= 4 && (ghost_ok == 0 ==> out->okv == V(self->p)) && (ghost_ok == 1 ==> out->okv == V(self->q)) && (ghost_ok == 2 ==> out->okv == V(self->g)) && (ghost_ok == 3 ==> out->okv == V(self->h)))
+__CPROVER_ensures(g_pub_calls == 1 && g_pub_obj == __CPROVER_POINTER_OBJECT(self->com) && g_pub_nput == 4)
 //@ end
